@@ -30,6 +30,11 @@ SEQS = ['list', 'tuple', 'deque', 'USeq', 'UMutSeq', 'UGenList', 'range']
 COLLS = ['set', 'frozenset', 'USet', 'UColl', 'dict_keys', 'dict_values', 'UIterable', 'UReversible']
 MAPS = ['dict', 'defaultdict', 'OrderedDict', 'Counter', 'ChainMap', 'UMap', 'dict_items']
 ITER1 = ['list_iterator', 'generator', 'UIterator', 'USizedIterator']
+# numeric leaves that compare (and hash) equal across types; their payload is *pinned* in the shape
+# (equality between siblings is what they are for), the draw stays free
+ONES = [{'c': 'int', 'v': 1, 'pin': 1}, {'c': 'float', 'v': '1', 'pin': 1}, {'c': 'bool', 'v': 1, 'pin': 1},
+        {'c': 'complex', 'v': '1', 'pin': 1}, {'c': 'ENum', 'm': 0, 'pin': 1}]
+ZEROS = [{'c': 'int', 'v': 0, 'pin': 1}, {'c': 'float', 'v': '0', 'pin': 1}, {'c': 'bool', 'v': 0, 'pin': 1}]
 HASHABLE_LEAVES = [l for l in LEAVES if l['c'] not in ()]
 
 
@@ -90,6 +95,14 @@ def skeletons(tier, seed):
     sets += [[leaves[0], leaves[0]], [leaves[1], leaves[1]]]      # homogeneous, len 2
     if tier != 'quick':
         sets += [[a, b, c] for a, b, c in list(itertools.combinations(leaves[:6], 3))[::2]]
+    # siblings equal across types, in both orders (a container that merges equal items sees one)
+    eqsets = [list(p) for p in itertools.permutations(ONES[:3] if tier == 'quick' else ONES, 2)]
+    eqsets += [list(p) for p in itertools.permutations(ZEROS, 2)][:: (2 if tier == 'quick' else 1)]
+    eqsets += [[ONES[1], ONES[0], leaves[1]], [ONES[2], leaves[1], ONES[0]], [ONES[0]] * 3 + [ONES[1]]]
+    if tier != 'quick':
+        eqsets += [list(p) for p in itertools.permutations(ONES[:4], 3)][::3]
+        eqsets += [[{'c': 'tuple', 'items': [ONES[0], ONES[0]]}, {'c': 'tuple', 'items': [ONES[1], ONES[1]]}]]
+    sets += eqsets
     d1 = [s for s in containers_of(sets, tier) if _ok(s)]
     out = list(leaves) + d1
     # depth 2: containers of depth-1 containers (one or two children)
@@ -123,6 +136,8 @@ def spec_name(spec):
         return f"{c}{{{','.join(spec_name(k) + ':' + spec_name(v) for k, v in spec['pairs'])}}}"
     if 'denotes' in spec:
         return f'class:{spec["denotes"]}'
+    if spec.get('pin'):
+        return f"{c}={spec.get('v', 'ONE')}"
     return c
 
 
@@ -147,7 +162,12 @@ def shape_constraints(U, spec, t):
     if k == 'meta':
         cs.append(U.denotes(t) == U.K[spec['denotes']])
     if k in ('enum', 'intenum'):
-        pass
+        if spec.get('pin'):
+            cs.append(U.emem(t) == spec.get('m', 0))
+    if spec.get('pin') and k in ('int', 'bool'):
+        cs.append(U.ival(t) == int(spec['v']))
+    if spec.get('pin') and k in ('float', 'complex'):
+        cs.append(U.fval(t) == int(spec['v']))
     if 'items' in spec:
         cs.append(U.len(t) == len(spec['items']))
         for i, s in enumerate(spec['items']):
